@@ -88,6 +88,14 @@ M = [
  ("c15_stamp_previous_sample", "pyins/strapdown.py", "    return pd.DataFrame(data=np.hstack((dt, theta, dv)), index=imu.index[1:],", "    return pd.DataFrame(data=np.hstack((dt, theta, dv)), index=imu.index[:-1],", ["C15"], "violation"),
  ("c15_rate_coning_dt_power", "pyins/strapdown.py", "        coning = np.cross(a_gyro, b_gyro) * dt ** 2 / 12", "        coning = np.cross(a_gyro, b_gyro) * dt / 12", ["C15"], "violation"),
  ("c15_refactor_half_b", "pyins/strapdown.py", "        gyro_increment = (a_gyro + 0.5 * b_gyro) * dt", "        gyro_increment = 0.5 * (gyro[:-1] + gyro[1:]) * dt", ["C15"], "quiet-or-drift"),
+ ("c16_meridian_radius", "pyins/earth.py", "    rn = re * (1 - E2) / x", "    rn = re * (1 - E2) / x ** 0.5", ["C16"], "violation"),
+ ("c16_curvature_radius_swapped", "pyins/earth.py", "    result[:, 1, 0] = -1 / rn", "    result[:, 1, 0] = -1 / re", ["C16"], "violation"),
+ ("c16_centrifugal_sign", "pyins/earth.py", "    g0_g[0] = RATE**2 * rp * sin_lat", "    g0_g[0] = -RATE**2 * rp * sin_lat", ["C16"], "violation"),
+ ("c16_rate_vertical_sign", "pyins/earth.py", "    result[:, 2] = -RATE * np.sin(np.deg2rad(lat))", "    result[:, 2] = RATE * np.sin(np.deg2rad(lat))", ["C16"], "violation"),
+ ("c16_polar_radius", "pyins/transform.py", "    r_e[2] = ((1 - earth.E2) * re + alt) * sin_lat", "    r_e[2] = (re + alt) * sin_lat", ["C16"], "violation"),
+ ("c16_perturb_east_radius", "pyins/transform.py", "    lla[:, 1] += np.rad2deg(dr_n[:, 1] / rp)", "    lla[:, 1] += np.rad2deg(dr_n[:, 1] / re)", ["C16", "C18"], "violation"),
+ ("c16_frame_pole_sign", "pyins/transform.py", "        return Rotation.from_euler('ZY', [lon, -90 - lat], degrees=True).as_matrix()", "        return Rotation.from_euler('ZY', [lon, 90 - lat], degrees=True).as_matrix()", ["C16"], "violation"),
+ ("c16_gravity_height_term", "pyins/earth.py", "            * (1 - 2 * alt / A))", "            * (1 - 2 * alt / A) ** 1.0)", ["C16"], "quiet-or-drift"),
 ]
 
 
